@@ -357,6 +357,7 @@ func cmdCheck(args []string) int {
 	// verdicts
 	lock := loadLock()
 	violations, knownHit, toolErrors := 0, []string{}, 0
+	var boundedKnown []string
 	var lines []string
 	byName := map[string]*Obligation{}
 	discharged, total, mustFail := 0, 0, 0
@@ -448,6 +449,43 @@ func cmdCheck(args []string) int {
 			}
 		}
 	}
+	// bounded stand-ins of this property (never counted as proved; DESIGN §13.8)
+	var boundedEv []map[string]interface{}
+	if *only == "" {
+		for _, tp := range boundedTemplates(*prop) {
+			br := runBounded(*prop, tp, filepath.Join(outDir, "bounded"))
+			ent := map[string]interface{}{"harness": "bounded/" + br.File, "package": br.Pkg, "bound": br.Bound, "explored": br.Summary, "seconds": round3(br.Seconds),
+				"label": "bounded (a stand-in for an assumption no contract within reach decides; not counted as proved)"}
+			if br.ToolError != "" {
+				toolErrors++
+				lines = append(lines, "TOOL-ERROR "+br.ToolError)
+				ent["tool_error"] = br.ToolError
+			}
+			var vnames, knames []string
+			for _, v := range br.Violations {
+				isKnown := false
+				for _, kf := range known {
+					if kf.Status == "open" && kf.Property == *prop && kf.matches(v.Name) {
+						lines = append(lines, fmt.Sprintf("KNOWN-FINDING: property=%s obligation=%s %s", *prop, v.Name, kf.Text))
+						knames = append(knames, v.Name)
+						isKnown = true
+						break
+					}
+				}
+				if isKnown {
+					continue
+				}
+				violations++
+				dir := writeBoundedReplay(*prop, v, br, tp)
+				lines = append(lines, fmt.Sprintf("VIOLATION property=%s replay=%s obligation=%s", *prop, dir, v.Name))
+				vnames = append(vnames, v.Name)
+			}
+			ent["violations"] = vnames
+			ent["known_findings_hit"] = knames
+			boundedKnown = append(boundedKnown, knames...)
+			boundedEv = append(boundedEv, ent)
+		}
+	}
 	if *pin {
 		pinLock(*prop, obls)
 	}
@@ -515,6 +553,10 @@ func cmdCheck(args []string) int {
 			"solver_timeout_s":         to,
 			"explanation":              "every obligation generated from the current /repo source for the contracts tagged with this property was sent to z3, z3-new and cvc5; 'discharged' counts those answered unsat. 'obligations' excludes the obligations listed as OPEN findings in /verif/known_findings.txt (recorded genuine defects, named in known_findings_hit and printed as KNOWN-FINDING lines): the proof-level claim is about the remaining obligations; obligations_generated is the full count",
 		}}
+	if len(boundedEv) > 0 {
+		ev.Coverage["bounded_standins"] = boundedEv
+		ev.Coverage["bounded_known_findings_hit"] = boundedKnown
+	}
 	if !*noEvidence && *only == "" && os.Getenv("VERIF_SCRATCH") == "" {
 		os.MkdirAll(filepath.Join(verifDir, "evidence"), 0o755)
 		data, _ := json.MarshalIndent(ev, "", " ")
